@@ -236,20 +236,20 @@ class Lib:
         return None
 
     def getitem(self, run, base, k, lineno):
-        if isinstance(base, tuple) and base and base[0] == 'gadj':
+        if isinstance(base, tuple) and base and isinstance(base[0], str) and base[0] == 'gadj':
             return ('gadj1', base[1], coerce(k, so.U()))
-        if isinstance(base, tuple) and base and base[0] == 'gadj1':
+        if isinstance(base, tuple) and base and isinstance(base[0], str) and base[0] == 'gadj1':
             G, u = base[1], base[2]
             v = coerce(k, so.U())
             run.oblige('safety', 'edge-present', lineno, G.adj(u, v))
             return ('gadj2', G, u, v)
-        if isinstance(base, tuple) and base and base[0] == 'gadj2':
+        if isinstance(base, tuple) and base and isinstance(base[0], str) and base[0] == 'gadj2':
             if isinstance(k, PyConst) and isinstance(k.v, str):
                 return base[1].ew(k.v)(base[2], base[3])
             raise Unsupported('edge attribute with non-constant label')
-        if isinstance(base, tuple) and base and base[0] == 'gnodes':
+        if isinstance(base, tuple) and base and isinstance(base[0], str) and base[0] == 'gnodes':
             return ('gnode1', base[1], coerce(k, so.U()))
-        if isinstance(base, tuple) and base and base[0] == 'gnode1':
+        if isinstance(base, tuple) and base and isinstance(base[0], str) and base[0] == 'gnode1':
             if isinstance(k, PyConst) and isinstance(k.v, str):
                 return base[1].nw(k.v)(base[2])
             raise Unsupported('node attribute with non-constant label')
@@ -494,7 +494,7 @@ class Lib:
             raise Unsupported('dict comprehension shape at line %d' % e.lineno)
         g = e.generators[0]
         src = run.ev(g.iter, env)
-        if isinstance(src, tuple) and src and src[0] == 'items' and isinstance(g.target, ast.Tuple) and len(g.target.elts) == 2 \
+        if isinstance(src, tuple) and src and isinstance(src[0], str) and src[0] == 'items' and isinstance(g.target, ast.Tuple) and len(g.target.elts) == 2 \
                 and all(isinstance(t, ast.Name) for t in g.target.elts) and isinstance(e.key, ast.Name) and e.key.id == g.target.elts[0].id:
             d = src[1]
             x = fresh('dk', d.ksort)
@@ -515,7 +515,7 @@ class Lib:
             run.assume(so.forall(d.ksort, lambda k: Implies(d.dom[k], res.val[k] == z3.substitute(val, (x, k)))))
             res.defined_from = d
             return res
-        if (isinstance(src, SGraph) or (isinstance(src, tuple) and src and src[0] == 'gnodes')) and isinstance(g.target, ast.Name) \
+        if (isinstance(src, SGraph) or (isinstance(src, tuple) and src and isinstance(src[0], str) and src[0] == 'gnodes')) and isinstance(g.target, ast.Name) \
                 and isinstance(e.key, ast.Name) and e.key.id == g.target.id and not g.ifs:
             # {node: expr for node in G.nodes()} : total map over the node set
             U = so.U()
@@ -532,7 +532,7 @@ class Lib:
             res = SDict(U, val.sort(), dom=z3.K(U, BoolVal(True)), name='dcomp')
             run.assume(so.forall(U, lambda k: res.val[k] == z3.substitute(val, (x, k))))
             return res
-        if isinstance(src, tuple) and src and src[0] == 'keys':
+        if isinstance(src, tuple) and src and isinstance(src[0], str) and src[0] == 'keys':
             src = src[1]
         if not (isinstance(src, SDict) and isinstance(g.target, ast.Name) and isinstance(e.key, ast.Name) and e.key.id == g.target.id):
             raise Unsupported('dict comprehension at line %d' % e.lineno)
@@ -684,7 +684,7 @@ class Lib:
             if not args:
                 return _EmptyDict()
             v = args[0]
-            if isinstance(v, tuple) and v and v[0] == 'gdegree':
+            if isinstance(v, tuple) and v and isinstance(v[0], str) and v[0] == 'gdegree':
                 G = v[1]
                 U = so.U()
                 u = z3.Const('deg_u', U)
@@ -714,7 +714,7 @@ class Lib:
             g = e.generators[0] if len(e.generators) == 1 else None
             if g is not None and ast.unparse(e.elt) == 'len(%s)' % ast.unparse(g.target) and not g.ifs:
                 src = run.ev(g.iter, env2)
-                if isinstance(src, tuple) and src and src[0] == 'cc':
+                if isinstance(src, tuple) and src and isinstance(src[0], str) and src[0] == 'cc':
                     H = src[1]
                     f = z3.Function('LARGEST_CC_%d' % so.Mode.gen, H.adj.sort(), H.nodes.sort(), I)
                     m = f(H.adj, H.nodes)
@@ -726,7 +726,7 @@ class Lib:
             raise Unsupported('max over a generator at line %d' % lineno)
         if name == 'Counter':
             v = args[0] if args else None
-            if isinstance(v, tuple) and v and v[0] == 'values':
+            if isinstance(v, tuple) and v and isinstance(v[0], str) and v[0] == 'values':
                 d = v[1]
                 C = SDict(d.vsort, I, default=IntVal(0), name='counter')
                 C.no_insert = True        # Counter.__missing__ returns 0 without inserting the key
@@ -769,7 +769,7 @@ class Lib:
     def sorted_(self, run, v, lineno):
         """assumed contract of sorted(iterable of numbers): a new list, non-decreasing, a rearrangement of the input
         (perm / inv are the ghost bijection between result positions and input positions)"""
-        if isinstance(v, tuple) and v and v[0] == 'genexp':
+        if isinstance(v, tuple) and v and isinstance(v[0], str) and v[0] == 'genexp':
             v = self.listcomp(run, v[1], v[2])
         if isinstance(v, _EmptyList):
             return _EmptyList()
@@ -794,7 +794,7 @@ class Lib:
         return ks.n
 
     def sum_(self, run, v, lineno):
-        if isinstance(v, tuple) and v and v[0] == 'genexp':
+        if isinstance(v, tuple) and v and isinstance(v[0], str) and v[0] == 'genexp':
             e, env = v[1], v[2]
             h = run.unit.sum_specs.get(e.lineno) if hasattr(run.unit, 'sum_specs') else None
             g = e.generators[0]
@@ -937,7 +937,7 @@ class Lib:
             if attr == 'union' and len(args) == 1 and isinstance(args[0], SSet):
                 return args[0].snap()
             raise Unsupported('method %s on an empty set() at line %d' % (attr, lineno))
-        if isinstance(recv, tuple) and recv and recv[0] == 'gnodes' and attr == '__call__':
+        if isinstance(recv, tuple) and recv and isinstance(recv[0], str) and recv[0] == 'gnodes' and attr == '__call__':
             return recv
         if isinstance(recv, SList):
             if attr == 'append':
@@ -1032,7 +1032,7 @@ class Lib:
         U = so.U()
         if attr == 'add_nodes_from':
             v = args[0]
-            if isinstance(v, tuple) and v and v[0] == 'gnodes':
+            if isinstance(v, tuple) and v and isinstance(v[0], str) and v[0] == 'gnodes':
                 H.nodes = z3.K(U, BoolVal(True))       # every value of the node sort is a node of G
                 return NONE
             raise Unsupported('add_nodes_from(%r)' % (v,))
